@@ -8,6 +8,6 @@ CONSTANTS
   AllowSplit = TRUE
   StartCached = TRUE
   MarkBeforePut = TRUE
-  AllowReplace = FALSE
-  DelBeforeAvail = TRUE
-INVARIANTS NoPanic OneEstablisher EstablisherOnlyWhileUnavailable StableEnd
+  AllowReplace = TRUE
+  DelBeforeAvail = FALSE
+INVARIANTS NoSendAfterReplace
